@@ -17,4 +17,3 @@ package dockerlog
 //@   ensures ret0 == forall(0, len(matchers), func(k int) bool { return match(matchers[k], c.labels[string(matchers[k].Label)]) })
 //@   loop 0 invariant rangeindex+1 <= len(matchers)
 //@   loop 0 invariant forall(0, rangeindex+1, func(k int) bool { return match(matchers[k], c.labels[string(matchers[k].Label)]) })
-
